@@ -170,7 +170,8 @@ def _dispatch(case, fac, info):
     if fam in ("random_hypergraph", "random_uniform"):
         if fam == "random_hypergraph":
             by = {s: c for s, c in case["by_size"]}
-            f = lambda: G.random_hypergraph(case["n"], dict(by), seed=case["sut_seed"])  # noqa
+            arg = dict(by)  # the caller's own dict: the same object goes to both calls
+            f = lambda: G.random_hypergraph(case["n"], arg, seed=case["sut_seed"])  # noqa
         else:
             by = {case["size"]: case["count"]}
             f = lambda: G.random_uniform_hypergraph(case["n"], case["size"], case["count"], seed=case["sut_seed"])  # noqa
@@ -184,6 +185,8 @@ def _dispatch(case, fac, info):
         _check_random(h2, case["n"], by, fam)
         if _edges(h1) != _edges(h2) or _obs(h1) != _obs(h2):
             raise Violation(f"C14/{fam}/same-seed-different-output", {"first": short(_edges(h1), 300), "second": short(_edges(h2), 300)})
+        if fam == "random_hypergraph" and arg != by:
+            raise Violation(f"C14/{fam}/argument-modified", {"passed": short(by), "after": short(arg)})
         if fac.sut_seed_calls < 2:
             # equal although the code never re-seeded: cannot happen with a perturbed stream unless the outputs are forced
             pass
@@ -203,7 +206,15 @@ def _dispatch(case, fac, info):
                 kw.pop("corr_target", None)
                 kw.pop("num_shuffles", None)
         what = "scale_free[defaults]" if not kw else "scale_free"
-        h = _call(what, scale_free_hypergraph, case["n"], dict(by), dict(sc), **kw)
+        # the caller's own dicts: they must come back unchanged, and a second call with the very same objects
+        # (another sample from the same configuration) is held to the same contract
+        a_by, a_sc = dict(by), dict(sc)
+        h = _call(what, scale_free_hypergraph, case["n"], a_by, a_sc, **kw)
+        if a_by != by or a_sc != sc:
+            raise Violation(f"C14/{what}/argument-modified", {"edges_by_size": [short(by), short(a_by)], "scale_by_size": [short(sc), short(a_sc)]})
+        if case["seed"] % 3 == 0:
+            h = _call(what, scale_free_hypergraph, case["n"], a_by, a_sc, **kw)
+            info["second_sample_same_arguments"] = 1
         if h.num_nodes() != case["n"]:
             raise Violation(f"C14/{what}/node-count", {"nodes": h.num_nodes(), "n": case["n"]})
         per = {}
@@ -224,6 +235,8 @@ def _dispatch(case, fac, info):
 
         acts = {o: list(v) for o, v in case["acts"]}
         hg = _call("hoad", HOADmodel, case["N"], acts, case["time"])
+        if acts != {o: list(v) for o, v in case["acts"]}:
+            raise Violation("C14/hoad/argument-modified", {"after": short(acts, 300)})
         orders = set(acts)
         for t, e in hg.get_edges():
             if len(e) - 1 not in orders:
